@@ -109,6 +109,7 @@ MUTANTS: Dict[str, List[M]] = {
         ("jsonschema argv path skips the checker", "_jsonschema.py", "        val = self._check_type(args[2])\n        if not self._with_meta:", "        val = args[2]\n        if not self._with_meta:", "C05.a"),
     ],
     "C06": [
+        ("unknown subcommand name checked only when a decision is asked for (F59)", "_actions.py", "        if fail_no_subcommand or subcommand is not None:\n", "        if fail_no_subcommand:\n", "C06.d"),
         ("moved parser's required keys use the raw option name", "_actions.py", 'required_args = {dest + "." + x for x in subparser.required_args}', 'required_args = {prefix + "." + x for x in subparser.required_args}', "C06.d"),
         ("unknown subcommand names rejected only when required", "_actions.py", "            if subcommand not in action._name_parser_map:", "            if action._required and subcommand not in action._name_parser_map:", "C06.d"),
         ("known key skipped for any falsy value", "_core.py", "if (val is None and skip_none) or lenient_check.get():", "if (not val and skip_none) or lenient_check.get():", "C06.a"),
